@@ -155,11 +155,12 @@ def finalSpec (p : IpcHub.TsSpec.Params) (frag : Nat) (st : St) (complete : Bool
       demuxed := false
     | .ok sp =>
       if seq > 1 ∧ ¬ IpcHub.HlsSpec.startsWithKey p sp then
-        -- class by the cause, from the implementation's own observations: the audio-side reap fires
-        -- only when the segment before lasted at least 2 × fragment (known open finding); a segment
-        -- opened earlier than that in mid-GOP is a different failure
-        let prevLong : Bool := match st.durs.find? (·.1 = seq - 1) with
-          | some (_, d) => decide (d ≥ 2 * (frag : Int) * 90000)
+        -- class by the cause, from what the segments themselves carry: the audio-side reap fires
+        -- only when the segment before spans at least 2 × fragment of media time (known open
+        -- finding; 100 ms of slack for the re-derived audio time stamps); a segment opened in
+        -- mid-GOP behind a SHORTER one is a different failure
+        let prevLong : Bool := match pes.getLast? with
+          | some prev => decide ((IpcHub.HlsSpec.mediaSpan prev + 9000 : Nat) ≥ 2 * frag * 90000)
           | none => false
         let cls := cond prevLong "segment-not-starting-with-key:audio-side-reap" "segment-not-starting-with-key"
         if ¬ fails.contains cls then fails := fails ++ [cls]
